@@ -1,7 +1,7 @@
 ----------------------------- MODULE MetaLookup -----------------------------
 (* How a call, a subscription or a property access finds its ACTION ID at run time (extension of C05; the
    property half is also C14's): type/object/metaobject_decorator.go, type/object/server.go and their users
-   bus/proxy.go, bus/object.go.
+   bus/proxy.go, bus/object.go (line numbers: the tree before the repair of MethodID).
 
    A META-OBJECT is a finite set of entries [k, uid, name, sig, ret]: k = "m" method (sig = the parameter
    signature, ret = the return signature), "s" signal, "p" property (ret = "").  Go keeps one map uid -> entry
@@ -20,22 +20,23 @@
                                                                       Title_0, Title_1, ...
      FullMetaObject(from)                l.215-242  FullOf             from's entries, then the generic object's
                                                                       (ObjectMetaObject, server.go l.34-130) over them
-     proxy.Call2 / Call / CallID         bus/proxy.go l.37-87          Reach: the id MethodID answers is the id called;
-                                                                      Call refuses another return signature
+     proxy.Call2 / Call / CallID         bus/proxy.go l.37-87          E2EPlan: the id MethodID answers is the id
+                                                                      called; Call refuses another return signature
      proxy.SubscribeID(id)               l.91-137   Subscribable       id of a signal or a property of the proxy's
                                                                       meta-object, else an error
-     objectImpl.SetProperty(name|id, v)  bus/object.go l.162-215       ResolveProp (a string is the name, an unsigned
-                                                                      integer the id), SetAccepted (every property of
-                                                                      the name declares v's signature or "(sig)"),
-                                                                      the event goes to PropertyID(name, v's signature)
-     objectImpl.Property(name)           l.146-160  a string only (GetById: what an id gets)
+     objectImpl.SetProperty(name|id, v)  bus/object.go l.162-215       E2EPlan "setname" / "setid" (a string is the
+                                                                      name, an unsigned integer the id), SetAccepted
+                                                                      (every property of the name declares v's
+                                                                      signature or "(sig)"), the event goes to
+                                                                      PropertyID(name, v's signature)
+     objectImpl.Property(name)           l.146-160  a string only (E2EPlan "getid": what an id gets)
 
    TWO RENDERINGS of the lookups, selected by constants:
      MapOrder       the kinds whose table is walked in the order of a Go map walk, i.e. ANY order: among several
                     candidates any one may be answered.  {} = the intent (the candidate declared last, i.e. with
                     the greatest uid: an action of the interface shadows the generic object's action of the same
                     name and signature, ids below 100).  The code as found: {"m","s","p"}; since the repair of
-                    MethodID (fix: the walk is by descending id): {"s","p"}.
+                    MethodID (fix: among the candidates the one with the highest id): {"s","p"}.
      LastChanceAny  the kinds whose last chance "the first entry that carries the name" (documented for signals
                     and properties, undocumented for methods) also applies when SEVERAL entries carry the name:
                     then an overload the caller did not ask for is answered.  {} = the intent (last chance only for
@@ -46,8 +47,7 @@
                     (what the IDL generator assigns); FALSE: for all of them - they then fail, which records what
                     the code does with an id of the generic range (observation, outside C05's statement)
 
-   THEOREMS (invariants of the two-step generator machine below: a state is a row = a meta-object, then a
-   query on it):
+   THEOREMS (invariants of the generator machine below: a state is a row = a meta-object, then a query on it):
      SoundName            an answered id belongs to an entry of the asked kind that carries the asked name
      ExactWins            when an entry has the asked name and signature, the answer is such an entry (never an
                           error, never the last chance)
@@ -56,6 +56,8 @@
      Deterministic        one answer, whatever the map order
      OwnActionReachable   every action of an interface is found by its own name and signature in the merged
                           meta-object FullOf(interface) - the query a generated proxy makes (C05's statement)
+     PropertyEventId      the change event of a write accepted by setProperty goes to the id of the property, for a
+                          value that carries the declared signature or, when that is "(T)", the bare T (C14)
      ErrorOnlyIfNothing   "missing" only when no entry has the name (or, in the intent, the name is overloaded and
                           no signature fits), "unparsable" only for a signature outside the grammar
      NamesDistinct / NamesCover / NamesStable / FirstKeepsBare   the names handed to the generators
@@ -63,11 +65,13 @@
      ActionNameSound      the name of THE entry with that id when ids are unique
    Code = intent in MCMetaLookup.cfg (everything holds).  MCMetaLookup_code.cfg: the code's constants with the
    theorems the code keeps.  Dev_MetaLookup_*.cfg: the code's constants / a rendering that is not the code with a
-   theorem that must break.                                                                                     *)
+   theorem that must break; Obs_MetaLookup_*.cfg: what the code does outside the preconditions
+   (design-notes/EXT-metalookup-cfgs.py writes all of them).                                                    *)
 EXTENDS Integers, Sequences, FiniteSets, TLC
 
 CONSTANTS Universe,          \* "quick" | "thorough": how many entries a row may have
-          MapOrder, LastChanceAny, WalkSorted, AssumeUserRange
+          MapOrder, LastChanceAny, WalkSorted, AssumeUserRange,
+          QueryTypes         \* the kinds of query the generator asks: a subset of {"lookup", "names", "full", "action"}
 
 Kinds == {"m", "s", "p"}
 
@@ -281,7 +285,7 @@ LookupQ(k, n, s) == [t |-> "lookup", k |-> k, name |-> n, sig |-> s, id |-> 0]
 \* one-kind rows: the whole alphabet; mixed rows: what a generated proxy asks (every entry by its own name and
 \* signature), and for signals and properties also the signature with the other wrapping
 SelfQ(mo) == {LookupQ(e.k, e.name, e.sig) : e \in mo}
-Queries(r) ==
+AllQueries(r) ==
   LET mo == Meta(r)
       ks == {e.k : e \in User(r)}
   IN (IF OneKind(r) THEN UNION {{LookupQ(k, n, s) : n \in QNames(User(r), k) \cup (IF r.full /\ k = "m" THEN {"clearStats"} ELSE {}), s \in QSigs(k)} : k \in ks}
@@ -290,6 +294,7 @@ Queries(r) ==
      \cup {[t |-> "names", k |-> "", name |-> "", sig |-> "", id |-> 0]}
      \cup {[t |-> "full", k |-> "", name |-> "", sig |-> "", id |-> 0]}
      \cup {[t |-> "action", k |-> "", name |-> "", sig |-> "", id |-> i] : i \in {e.uid : e \in User(r)} \cup {3, 4, 86, 200}}
+Queries(r) == {x \in AllQueries(r) : x.t \in QueryTypes}
 
 Init == row \in Stems /\ q = NoQ
 Choose == /\ row.sel = Unset
